@@ -297,6 +297,8 @@ def run(m, tier):
     results = [r1_always_tried(m, ctx, blocks), r2_items(m, ctx), r2_nodes(m, ctx, blocks),
                rr.rule_ignore_filter(m, "C11.R3"), r4_directive_sibling(m), rr.rule_quote_state(m, "C11.R5"),
                rr.rule_queue(m, "C11.R6"), r7_inline_flag(m)]
+    from rules import order_rules
+    results.append(order_rules.option_forwarding_rule(m, "C11.R8"))
     expl = ("Decides structural clauses of C11: per call site of the block engine the class list tried at every position contains the "
             "comment, include, preprocessor (and, exactly under process_directives, directive) classes; comments are collected before "
             "each opening statement and around every program unit, with both collectors in every round; every reader item and every "
